@@ -121,9 +121,12 @@ pub fn c07_legs(ctx: &Ctx, rep: &mut Report) {
     let logs = format!("{}/.partials", ctx.out_dir);
     let _ = std::fs::create_dir_all(&logs);
     let mut legs = serde_json::Map::new();
+    // VERIF_LEGS=asan,miri restricts the legs (debugging aid); default: all
+    let only = std::env::var("VERIF_LEGS").unwrap_or_default();
+    let want = |name: &str| only.is_empty() || only.split(',').any(|x| x == name);
 
     // ---- ASan
-    {
+    if want("asan") {
         let t0 = Instant::now();
         match build_flavour(ctx, "-Zsanitizer=address -Cforce-frame-pointers=yes", false, "target-asan") {
             Err(e) => {
@@ -131,7 +134,7 @@ pub fn c07_legs(ctx: &Ctx, rep: &mut Report) {
             }
             Ok(exe) => {
                 let env = vec![("ASAN_OPTIONS".to_string(), format!("halt_on_error=1:abort_on_error=1:detect_leaks=0:log_path={logs}/asanlog"))];
-                let (l, ends) = run_sharded_with(ctx, 16, 1, &[exe], &env, "asan", 3600);
+                let (l, ends) = run_sharded_with(ctx, 16, 1, &[exe], &env, "asan", 900);
                 let text = read_logs(&logs, "asanlog");
                 let verdict = judge_reports(rep, "asan", report_blocks(&text, "ERROR: AddressSanitizer"));
                 rep.local.add("leg.asan.api-calls", l.evals);
@@ -144,7 +147,7 @@ pub fn c07_legs(ctx: &Ctx, rep: &mut Report) {
         }
     }
     // ---- valgrind memcheck on the plain release binary
-    {
+    if want("valgrind") {
         let t0 = Instant::now();
         let have = Command::new("valgrind").arg("--version").output().map(|o| o.status.success()).unwrap_or(false);
         if !have {
@@ -152,7 +155,7 @@ pub fn c07_legs(ctx: &Ctx, rep: &mut Report) {
         } else {
             let me = std::env::current_exe().unwrap().to_string_lossy().to_string();
             let prefix: Vec<String> = vec!["valgrind".into(), "--quiet".into(), "--error-exitcode=0".into(), "--leak-check=no".into(), format!("--log-file={logs}/vglog.%p"), me];
-            let (l, ends) = run_sharded_with(ctx, 16, 1, &prefix, &[], "valgrind", 3600);
+            let (l, ends) = run_sharded_with(ctx, 16, 1, &prefix, &[], "valgrind", 1800);
             let text = read_logs(&logs, "vglog");
             // memcheck error kinds
             let mut blocks = vec![];
@@ -181,7 +184,7 @@ pub fn c07_legs(ctx: &Ctx, rep: &mut Report) {
         }
     }
     // ---- Miri on the holder path (the only one that does not cross FFI)
-    {
+    if want("miri") {
         let t0 = Instant::now();
         let seeds = format!("{logs}/miri-seeds-{}.json", std::process::id());
         if !crate::mon::c07::write_miri_seeds(&seeds) {
@@ -201,7 +204,8 @@ pub fn c07_legs(ctx: &Ctx, rep: &mut Report) {
             };
             // build once (zero cases), then the shards in parallel
             let warm = format!("{logs}/miri-warm-{}.json", std::process::id());
-            let built = spawn(0, 1, 0, &warm).and_then(|c| c.wait_with_output()).map(|o| o.status.success()).unwrap_or(false);
+            // (shard 1 of 1 matches no case: this run only compiles and starts the interpreter)
+            let built = spawn(1, 1, 0, &warm).and_then(|c| c.wait_with_output()).map(|o| o.status.success()).unwrap_or(false);
             let _ = std::fs::remove_file(&warm);
             if !built {
                 legs.insert("miri".into(), json!({"status": "cargo miri could not build/run the harness; leg decides nothing"}));
